@@ -71,6 +71,9 @@ class PoolReplayer(E.Replayer):
     """`Replayer` + link-layer reservation + the C13 oracle after every action."""
 
     def __init__(self, sc, ex=None, reserve=True, pmul=1000):
+        for r in sc.resps:
+            if r.ty == "K":
+                r.seq = 300 + r.uid     # sequence numbers are unrelated to (and apart from) every physical id in play
         super().__init__(sc, ex)
         self.pmul = pmul
         self.full = True
@@ -79,6 +82,7 @@ class PoolReplayer(E.Replayer):
         self.delivered_keys = set()
         self.c13 = []               # violations of the C13 statement
         self.obs_errors = []
+        self.delivered_phys = set()  # physical ids carried by the keep responses handed to the executor
         self.fresh_from = 50        # no-reserve mode: any id unused at delivery time; searched from here so
                                     # that a later qalloc (lowest unused id) cannot take the qubit of a parked pair
         self.owners = {}            # request key -> applications that issue a request on it
@@ -119,6 +123,8 @@ class PoolReplayer(E.Replayer):
                     p += 1
                 r.phys = p
             self.delivered_keys.add(r.key())
+            if r.ty == "K":
+                self.delivered_phys.add(r.phys)
         try:
             super().step(tok)
         except Exception as e:
@@ -200,6 +206,13 @@ class PoolReplayer(E.Replayer):
                             "queues of the delivered responses")
                 self.bad(what, tok, changed_app=b, may_change=sorted(allowed),
                          unit_before=(before.get(b) or {}).get("unit"), unit_after=(now.get(b) or {}).get("unit"))
+        if tok[0] in ("d", "p"):
+            was = {p for a in before.values() for p in (a.get("unit") or []) if p is not None}
+            new = sorted(p for p in seen if p not in was and p not in self.delivered_phys)
+            if new:
+                self.bad("an entanglement delivery mapped a virtual qubit to a physical qubit that no delivered keep "
+                         "response carries (the delivered qubit itself is not mapped)", tok, mapped_to=new,
+                         delivered=sorted(self.delivered_phys))
         if "raised" in st and tok[0] in ("d", "p"):
             if before != now or used != used0:
                 self.bad("a delivery / poll that raised %s changed the executor state" % st["raised"], tok)
